@@ -26,7 +26,7 @@ type c10Cfg struct {
 	Type    string `json:"type"`    // model | collection
 	Trans   string `json:"trans"`   // none | id | id-proj | custom | custom-err | custom-emptyrid
 	Default bool   `json:"default"` // Default value set
-	Store   string `json:"store"`   // mock | badger
+	Store   string `json:"store"`   // mock | badger | mock-wraperr
 	// Nest: the handler sits on a Mux mounted two levels deep (mounts made top-down),
 	// so the resource id is svc.lib.r.<id>
 	Nest bool `json:"nest,omitempty"`
@@ -64,12 +64,13 @@ func init() {
 					bs = append(bs, core.Batch{Name: fmt.Sprintf("pairs-%d-%d", i, s), TimeoutS: 900, Params: core.Params(c10Params{Kind: "pairs", Cfg: cf, Shard: s, Shards: sh})})
 				}
 			}
-			i := 0
+			i, combo := 0, 0
 			for _, typ := range []string{"model", "collection"} {
 				for _, tr := range []string{"none", "id", "id-proj", "custom", "custom-err", "custom-emptyrid"} {
 					for _, def := range []bool{false, true} {
-						for _, st := range []string{"mock", "badger"} {
-							if st == "badger" && i%3 != 0 && tier == core.Quick {
+						combo++
+						for si, st := range []string{"mock", "badger", "mock-wraperr"} {
+							if st != "mock" && (combo+si)%3 != 0 && tier == core.Quick {
 								i++
 								continue
 							}
@@ -133,6 +134,9 @@ func newC10Env(c *core.Ctx, cfg c10Cfg) (*c10Env, error) {
 			bs.SetType([]interface{}(nil))
 		}
 		e.st = bs
+	case "mock-wraperr":
+		// a store that reports not-found and duplicate wrapped in its own errors
+		e.st = wrapErrStore{mockstore.NewStore()}
 	default:
 		e.st = mockstore.NewStore()
 	}
@@ -247,8 +251,28 @@ func (e *c10Env) get(rid string) (val interface{}, found bool, ok bool) {
 	return v, true, true
 }
 
+// errStoreBlocked: a store call of the harness did not return (a transaction on the id
+// is still open somewhere, e.g. left open by the handler under test). No verdict of this
+// property can be reached from there; C04 decides requests that are never answered.
+var errStoreBlocked = errors.New("store call did not return within 20 s")
+
+func (e *c10Env) guarded(f func() error) error {
+	done := make(chan error, 1)
+	go func() { done <- f() }()
+	select {
+	case err := <-done:
+		return err
+	case <-time.After(20 * time.Second):
+		return errStoreBlocked
+	}
+}
+
 // mutate changes the stored value from before to after (nil = absent).
 func (e *c10Env) mutate(storeID string, before, after interface{}) error {
+	return e.guarded(func() error { return e.mutate0(storeID, before, after) })
+}
+
+func (e *c10Env) mutate0(storeID string, before, after interface{}) error {
 	wt := e.st.Write(storeID)
 	defer wt.Close()
 	switch {
@@ -265,6 +289,10 @@ func (e *c10Env) mutate(storeID string, before, after interface{}) error {
 
 // mutateMany applies a chain of mutations inside one write transaction.
 func (e *c10Env) mutateMany(storeID string, before interface{}, afters []interface{}) error {
+	return e.guarded(func() error { return e.mutateMany0(storeID, before, afters) })
+}
+
+func (e *c10Env) mutateMany0(storeID string, before interface{}, afters []interface{}) error {
 	wt := e.st.Write(storeID)
 	defer wt.Close()
 	for _, after := range afters {
@@ -477,18 +505,25 @@ func (e *c10Env) oneCase(name string, before, after interface{}, tag string) boo
 			other = after
 		}
 		pos2 := e.rig.C.Len()
-		wt := e.st.Write(storeID)
-		var rerr error
 		what := "Create on the existing id"
-		if after != nil {
-			rerr = wt.Create(other)
-		} else {
+		if after == nil {
 			what = "Update and Delete on the missing id"
-			if rerr = wt.Update(other); rerr != nil {
-				rerr = wt.Delete()
-			}
 		}
-		wt.Close()
+		rerr := e.guarded(func() error {
+			wt := e.st.Write(storeID)
+			defer wt.Close()
+			if after != nil {
+				return wt.Create(other)
+			}
+			if err := wt.Update(other); err != nil {
+				return wt.Delete()
+			}
+			return nil
+		})
+		if rerr == errStoreBlocked {
+			c.Inconclusive("mutation blocked: " + rerr.Error())
+			return false
+		}
 		c.Obs("refused_mutations", 1)
 		d2 := copyDesc(desc)
 		d2["refused_mutation"], d2["with_value"] = what, other
